@@ -454,6 +454,7 @@ var Profiles = []struct {
 	{"render", 14},
 	{"mixed", 14},
 	{"syscache", 6},
+	{"geometry1", 0}, // one task, 3-8 geometry calls: pool behaviour within and between the calls of one caller (selected explicitly by the driver's "solo" batch)
 }
 
 // GenRun derives the complete, explicit specification of run #run of a batch.
@@ -480,6 +481,14 @@ func GenRun(verifSeed uint64, run int, tier string, profiles []string) *RunSpec 
 		if allowed(p.Name) {
 			tot += p.Weight
 		}
+	}
+	if tot == 0 { // only zero-weight profiles selected explicitly
+		for _, p := range Profiles {
+			if allowed(p.Name) {
+				spec.Profile = p.Name
+			}
+		}
+		tot = 1
 	}
 	x := cfgR.Intn(tot)
 	for _, p := range Profiles {
@@ -517,6 +526,10 @@ func GenRun(verifSeed uint64, run int, tier string, profiles []string) *RunSpec 
 
 	// font table for this run
 	nf := 0
+	if spec.Profile == "geometry1" {
+		ntasks = 1
+		maxSteps = 3 + cfgR.Intn(6)
+	}
 	if spec.Profile == "syscache" {
 		if ntasks < 2 {
 			ntasks = 2
@@ -525,7 +538,7 @@ func GenRun(verifSeed uint64, run int, tier string, profiles []string) *RunSpec 
 			ntasks = 4
 		}
 	}
-	if spec.Profile != "geometry" && spec.Profile != "syscache" {
+	if spec.Profile != "geometry" && spec.Profile != "syscache" && spec.Profile != "geometry1" {
 		nf = 1 + cfgR.Intn(3)
 		perm := cfgR.Perm(len(fontTable))
 		for i := 0; i < nf; i++ {
@@ -544,7 +557,7 @@ func GenRun(verifSeed uint64, run int, tier string, profiles []string) *RunSpec 
 		for s := 0; s < ns; s++ {
 			var st Step
 			switch spec.Profile {
-			case "geometry":
+			case "geometry", "geometry1":
 				st = genGeometryStep(wl, l, tols)
 			case "fonts":
 				if wl.Bool(0.8) {
